@@ -210,23 +210,40 @@ def rule_label_alignment(ctx, R="R-label-alignment"):
     zips = [c for c in ast.walk(fi.node) if isinstance(c, ast.Call) and call_name(c) == "zip" and any("labels" in unparse(a) for a in c.args)]
     ok = False
     why = "no zip of groups with labels found"
+    defs = {}
+    for n in walk_no_nested(fi.node):
+        if isinstance(n, ast.Assign) and isinstance(n.targets[0], ast.Name):
+            defs.setdefault(n.targets[0].id, n.value)
     if len(zips) == 1:
         z = zips[0]
         args = [unparse(a) for a in z.args]
-        ok = args == ["values", "labels"]
         why = f"groups and labels are paired through zip({', '.join(args)})"
+        g0 = z.args[0]
+        # the groups are the leaders of `values` in list order, the missing-value leader moved last --
+        # exactly how the label list is laid out (labels of the non-missing groups, then str_nan)
+        nan_last = False
+        if isinstance(g0, ast.Name) and len(args) == 2 and args[1] == "labels":
+            d = defs.get(g0.id)
+            if isinstance(d, ast.ListComp) and unparse(d.generators[0].iter) == "values" and unparse(d.elt) == unparse(d.generators[0].target) \
+                    and [cmp_canon(c) for c in d.generators[0].ifs] in ([("self.str_nan", "!=", unparse(d.elt))], [(unparse(d.elt), "!=", "self.str_nan")]):
+                augs = [a for a in walk_no_nested(fi.node) if isinstance(a, ast.AugAssign) and unparse(a.target) == g0.id]
+                lab_augs = [a for a in walk_no_nested(fi.node) if isinstance(a, ast.AugAssign) and unparse(a.target) == "labels" and unparse(a.value) == "[self.str_nan]"]
+                if len(augs) == 1 and unparse(augs[0].value) == "[self.str_nan]" and len(lab_augs) == 1:
+                    ca = [(cmp_canon(t), pol) for t, pol in _flatten_conditions(cfg.path_conditions(augs[0]))]
+                    cb = [(cmp_canon(t), pol) for t, pol in _flatten_conditions(cfg.path_conditions(lab_augs[0]))]
+                    nan_last = ca == cb == [(("self.str_nan", "in", "values"), True)]
+            if not nan_last:
+                why = f"zip({', '.join(args)}): the label list puts str_nan last, the groups are not laid out the same way (a group appended after str_nan swaps labels with it)"
+        ok = nan_last
         par = cfg.parent(z)
         if ok and isinstance(par, ast.For) and isinstance(par.target, ast.Tuple):
             g = unparse(par.target.elts[0])
             inner = [n for n in ast.walk(par) if isinstance(n, ast.For) and n is not par]
             ok = any(unparse(n.iter) in (f"values.get({g})", f"values.content[{g}]", f"values.content.get({g})") for n in inner)
-            why = "members of a group are not read through values.get(<leader>)"
-    defs = {}
-    for n in walk_no_nested(fi.node):
-        if isinstance(n, ast.Assign) and isinstance(n.targets[0], ast.Name):
-            defs.setdefault(n.targets[0].id, n.value)
+            if not ok:
+                why = "members of a group are not read through values.get(<leader>)"
     ok = ok and unparse(defs.get("values", ast.Constant(None))) == "self.values_orders[feature]"
-    ctx.ob(R, construct(fi, "label k is given to the members of the k-th group of the list order"), ok, loc(fi, zips[0] if zips else None), "" if ok else why)
+    ctx.ob(R, construct(fi, "label k is given to the members of the k-th group of the list order (missing values last, like the labels)"), ok, loc(fi, zips[0] if zips else None), "" if ok else why)
     # nowhere in the package is the insertion order of `content` used positionally
     n = 0
     bad = []
@@ -370,7 +387,8 @@ MUTANTS = [
     M("OrdinalDiscretizer stores the merged orders after the label table", [(F_QUAL, "        # discretizing features based on each feature's values_order\n        super().fit(x_copy, y)\n\n        return self\n\n\nclass ChainedDiscretizer", "        # discretizing features based on each feature's values_order\n        super().fit(x_copy, y)\n        self.values_orders.update(known_orders)\n\n        return self\n\n\nclass ChainedDiscretizer")], "R-labels-last", "OrdinalDiscretizer.fit", quick=True),
     M("StringDiscretizer never builds labels", [(F_TYPE, "        # discretizing features based on each feature's values_order\n        super().fit(X, y)\n", "        self.is_fitted = True\n")], "R-labels-last", "StringDiscretizer.fit"),
     M("Discretizer builds labels only when verbose", [(F_DISC, "        # discretizing features based on each feature's values_order\n        super().fit(X, y)\n\n        return self\n\n\nclass QualitativeDiscretizer", "        # discretizing features based on each feature's values_order\n        if self.verbose:\n            super().fit(X, y)\n\n        return self\n\n\nclass QualitativeDiscretizer")], "R-labels-last", "Discretizer.fit"),
-    M("labels paired with groups in content (dict) order", [(F_BASE, "            for group_of_values, label in zip(values, labels):\n                for value in values.get(group_of_values):\n                    label_per_value.update({value: label})\n", "            for group_values, label in zip(values.content.values(), labels):\n                label_per_value.update({value: label for value in group_values})\n")], "R-label-alignment", quick=True),
+    M("labels paired with groups in content (dict) order", [(F_BASE, "            for group_of_values, label in zip(groups, labels):\n                for value in values.get(group_of_values):\n                    label_per_value.update({value: label})\n", "            for group_values, label in zip(values.content.values(), labels):\n                label_per_value.update({value: label for value in group_values})\n")], "R-label-alignment", quick=True),
+    M("D24-reverted: labels paired with the raw list order although str_nan is labelled last", [(F_BASE, "            for group_of_values, label in zip(groups, labels):", "            for group_of_values, label in zip(values, labels):")], "R-label-alignment", quick=True),
     M("labels filter differs from masks filter", [(F_BASE, "        [labels_per_values[feature][value]] * x_len for value in feature_values if value != str_nan\n", "        [labels_per_values[feature][value]] * x_len for value in feature_values\n")], "R-interval-lookup", "mask k"),
     M("labels iterate in reversed order", [(F_BASE, "        [labels_per_values[feature][value]] * x_len for value in feature_values if value != str_nan\n", "        [labels_per_values[feature][value]] * x_len for value in feature_values[::-1] if value != str_nan\n")], "R-interval-lookup", "mask k"),
     M("float labels not injective (len of group)", [(F_BASE, "                labels = [n for n, _ in enumerate(labels)]", "                labels = [len(str(lab)) for n, lab in enumerate(labels)]")], "R-float-labels-injective"),
